@@ -572,39 +572,44 @@ pub fn prop(tier: Tier, seed: u64) -> Prop {
             if ctx.describe_only {
                 return;
             }
-            // iterative DFS over all paths starting with action idx
-            fn rec(ctx: &mut Ctx, acts: &[c09::Act], rz: &fir::Resizer, be: BE, path: &mut Vec<usize>, depth: usize) {
+            // DFS over all paths starting with action idx; every node's Resizer is re-created by
+            // replaying the path on ONE live Resizer (a clone would reset the spare capacity of the
+            // scratch Vecs, which is part of the state a history builds up)
+            fn rec(ctx: &mut Ctx, acts: &[c09::Act], path: &mut Vec<u16>, depth: usize) {
                 if path.len() == depth {
                     return;
                 }
                 for a in 0..acts.len() {
-                    // thin the last level for depth 3: second-to-last level is complete
-                    if depth >= 3 && path.len() == depth - 1 && (a + path[0] + path[1]) % 4 != 0 {
+                    // thin the last level for depth 3: the second-to-last level is complete
+                    if depth >= 3 && path.len() == depth - 1 && (a + path[0] as usize + path[1] as usize) % 4 != 0 {
                         continue;
                     }
-                    path.push(a);
-                    let (rz2, be2, viols, oh) = fenced(|| c09::step(rz, be, acts[a], a, (path.len() - 1) as u8));
+                    let Some((mut rz, mut be)) = fenced(|| c09::rebuild(acts, path)) else { continue };
+                    let (viols, oh) = fenced(|| c09::step_live(&mut rz, &mut be, acts[a], a, path.len() as u8));
                     ctx.ops += 1;
+                    path.push(a as u16);
                     for (sig, d) in viols {
                         let pth = path.clone();
                         let sig = sig.replacen("C09|", "C03|history|", 1);
-                        ctx.violation(sig, || json!({"path": pth, "actions": pth.iter().map(|i| format!("{:?}", acts[*i])).collect::<Vec<_>>(), "more": d}));
+                        ctx.violation(sig, || json!({"path": pth, "actions": pth.iter().map(|i| format!("{:?}", acts[*i as usize])).collect::<Vec<_>>(), "more": d}));
                     }
                     ctx.outcome(oh);
-                    rec(ctx, acts, &rz2, be2, path, depth);
+                    drop(rz);
+                    rec(ctx, acts, path, depth);
                     path.pop();
                 }
             }
-            let rz0 = fir::Resizer::new();
-            let be0 = *backends().last().unwrap();
             let a = idx as usize;
-            let (rz1, be1, viols, _) = fenced(|| c09::step(&rz0, be0, a3[a], a, 0));
+            let mut rz0 = fir::Resizer::new();
+            let mut be0 = *backends().last().unwrap();
+            let (viols, _) = fenced(|| c09::step_live(&mut rz0, &mut be0, a3[a], a, 0));
             ctx.ops += 1;
             for (sig, d) in viols {
                 ctx.violation(sig.replacen("C09|", "C03|history|", 1), || json!({"path": [a], "more": d}));
             }
-            let mut path = vec![a];
-            rec(ctx, &a3, &rz1, be1, &mut path, depth);
+            drop(rz0);
+            let mut path = vec![a as u16];
+            rec(ctx, &a3, &mut path, depth);
             ctx.class(mix(idx, 0xC3));
             ctx.nontrivial += 1;
         })
